@@ -114,7 +114,7 @@ def build_wb(sc):
     class Top(Module):
         def __init__(self):
             self.wb = wishbone.Interface(data_width=sc["wbw"], adr_width=30, addressing="word")
-            self.port = LiteDRAMNativePort("both", address_width=sc.get("aw", 28), data_width=sc["pw"])
+            self.port = LiteDRAMNativePort("both", address_width=sc.get("aw", 26 - (sc["pw"] // 8).bit_length() + 1), data_width=sc["pw"])
             self.submodules.bridge = LiteDRAMWishbone2Native(self.wb, self.port, base_address=sc["base"])
     return Top()
 
@@ -304,7 +304,7 @@ def avl_plan(sc):
         we = rnd.random() < sc.get("wfrac", 0.5)
         bc = rnd.randint(2, maxb) if rnd.random() < p_burst else 1
         if bc > 1 and rnd.random() < 0.3:
-            bc = rnd.choice([2, 2, 3, maxb])
+            bc = min(maxb, rnd.choice([2, 2, 3, maxb]))
         pre = rnd.choice([0, 0, 0, 1, 2, 5, 20])
         a = addr()
         al = sc.get("align_end", 0)          # optional: bursts of this kind end on a multiple of `al` words
@@ -332,7 +332,7 @@ def build_avl(sc):
     class Top(Module):
         def __init__(self):
             self.avl = avalon.AvalonMMInterface(adr_width=30, data_width=sc["avw"])
-            self.port = LiteDRAMNativePort("both", address_width=sc.get("aw", 28), data_width=sc["pw"])
+            self.port = LiteDRAMNativePort("both", address_width=sc.get("aw", 26 - (sc["pw"] // 8).bit_length() + 1), data_width=sc["pw"])
             self.submodules.bridge = LiteDRAMAvalonMM2Native(self.avl, self.port, base_address=sc["base"],
                                                              max_burst_length=sc.get("maxburst", 16))
     return Top()
@@ -479,7 +479,7 @@ def run_avl(sc):
                      be=(yield av.byteenable) & 1, d=(yield av.writedata), cmd_ready=(yield port.cmd.ready),
                      wdata_ready=(yield port.wdata.ready), rdata_valid=(yield port.rdata.valid), rdata=(yield port.rdata.data))
             o = dict(wait=(yield av.waitrequest), rdv=(yield av.readdatavalid), q=(yield av.readdata),
-                     cv=(yield port.cmd.valid), cwe=(yield port.cmd.we), ca=(yield port.cmd.addr),
+                     cv=(yield port.cmd.valid), cwe=(yield port.cmd.we), ca=(yield port.cmd.addr), clast=(yield port.cmd.last),
                      wv=(yield port.wdata.valid), wd=(yield port.wdata.data), ww=(yield port.wdata.we) & 1,
                      rr=(yield port.rdata.ready))
             lock.append(dict(i=i, o=o))
